@@ -32,7 +32,7 @@ PROP = {  # commit subject prefix -> property
  "relative IRI references are resolved": "C05",
  "SPARQL XML results write a carriage return": "C16", "SPARQL XML serialisation refuses": "C16",
  "SPARQL XML results keep a literal's empty datatype": "C16", "the TSV result reader splits lines": "C16", "the CSV result reader splits": "C16",
- "GRAPH over a name that is not a graph": "C04", "logical-and is false": "C04",
+ "GRAPH over a name that is not a graph": "C04", "a hash join keeps": "C04", "logical-and is false": "C04",
  "a query may declare two prefixes": "C15", "an empty solution passed to QueryContext.clone": "C04",
 }
 
